@@ -335,6 +335,23 @@ def pipeline_part(ck: Check, rnd):
         cs.obs(t, "composition_law_excess", excess(comp, N + 1))
         cs.obs(t, "inverse_law_excess", excess(invd, N + 1))
         cs.obs(t, "canonical_law_excess", excess(can, N))
+        # a generator list with an EMPTY block below a populated one (G3 = 0, as for a Hamiltonian without odd part, e.g. mu = 1/2 at
+        # L1): forward and inverse expansions still compose to the identity and the forward one is still canonical
+        Gz = _NList()
+        for dgr, blk in enumerate(Gp):
+            Gz.append(np.zeros_like(blk) if dgr == 3 else np.asarray(blk).copy())
+        fwdz = _lie_expansion(Gz, N, psi, clmo, 1e-30, inverse=False, sign=None, restrict=False)
+        invz = _lie_expansion(Gz, N, psi, clmo, 1e-30, inverse=True, sign=None, restrict=False)
+        invz_d, moved = [], 0.0
+        for r in (0.01, 0.02, 0.04, 0.08):
+            z = r * d0
+            Pz = np.array([eval_list(fwdz[i], z, clmo) for i in range(6)])
+            moved = max(moved, float(np.max(np.abs(Pz - z))) / r ** 3)
+            invz_d.append(float(np.max(np.abs(np.array([eval_list(invz[i], Pz, clmo) for i in range(6)]) - z))))
+        tz = cs.trace(label + "|empty-G3", {"inverse_law_excess": -100, "forward_is_not_identity": -100},
+                      {"system": sname, "L": li, "N": N, "form": "partial-empty-generator-block"})
+        cs.obs(tz, "inverse_law_excess", excess(invz_d, N + 1))
+        cs.obs(tz, "forward_is_not_identity", 0.0 if moved > 1e-6 else 1.0)       # exp(L_G4) moves z at third order
         ck.sample({"case": label, "composition_defects": comp, "inverse_defects": invd, "canonicity_defects": can})
         # full normal form: only resonant monomials survive
         try:
